@@ -559,8 +559,21 @@ func runScenario(sc scenario, plan planSpec, seed uint64) *runResult {
 					vnow := verifkit.Now()
 					callSeq := m.log("get.call", w, key, 0, "")
 					ok := false
+					// Round 8b: one Get in three is made by a caller whose context is already cancelled
+					// (a delivery deadline that expired between two recipient domains). Derived from the
+					// operation itself, not drawn, so existing scenarios are not reshuffled. The pinned
+					// pool does not look at the context of a Get that finds an idle connection.
+					gctx := ctx
+					if (o.Key+o.Adv+w+len(key))%3 == 0 {
+						cctx, cancel := context.WithCancel(ctx)
+						cancel()
+						gctx = cctx
+						m.mu.Lock()
+						m.counts["get_calls_with_cancelled_context"]++
+						m.mu.Unlock()
+					}
 					guard(w, "pool.Get", func() {
-						pc, err := p.Get(ctx, key)
+						pc, err := p.Get(gctx, key)
 						if pc != nil {
 							c = pc.(*fconn)
 						}
@@ -773,7 +786,7 @@ func judge(c *rep.Case, r *rep.Reporter, ys yieldStats, sc scenario, plan planSp
 	r.Count("connections", int64(nconns))
 	r.Count("connections_returned_to_pool", int64(nReturned))
 	r.Count("connections_closed", int64(nclosed))
-	for _, k := range []string{"pool_get_closed_unusable", "pool_get_closed_expired", "pool_get_closed_with_bucket", "handout_idle_eq_lifetime", "handout_idle_gt_0"} {
+	for _, k := range []string{"pool_get_closed_unusable", "pool_get_closed_expired", "pool_get_closed_with_bucket", "handout_idle_eq_lifetime", "handout_idle_gt_0", "get_calls_with_cancelled_context"} {
 		r.Count(k, int64(counts[k]))
 	}
 	// own-ticker dimensions
